@@ -139,8 +139,16 @@ func (c *CroltSimple) Schedule(ctx *core.Context, work *ScheduledWork) error {
 	url := strings.Trim(c.CroltURL, "/") + "/add"
 	req := core.NewHTTPRequest(ctx, "POST", url, body)
 
-	_, err = req.Do(ctx)
+	resp, err := req.Do(ctx)
 	if nil != err {
+		core.Log(core.WARN|CRON, ctx, "CroltSimple.Schedule", "id", id, "error", err)
+		return err
+	}
+	if resp.Status < 200 || 300 <= resp.Status {
+		// The service said no (a schedule it does not understand,
+		// a job that exists): nothing was scheduled, and the
+		// caller has to know.
+		err = fmt.Errorf("cron service refused job %s: status %d: %s", id, resp.Status, resp.Body)
 		core.Log(core.WARN|CRON, ctx, "CroltSimple.Schedule", "id", id, "error", err)
 		return err
 	}
